@@ -23,6 +23,7 @@ FIXED = [
     ("noninteger_inequality", "h = 1/2\nx = 0\nwhile true:\n    h = 1/2 {1/2} 3/2\n    if h < 1:\n        x = x + 1\n    end\nend\n", ["x", "h", "h*x"]),
     ("noninteger_equality", "h = 1/2\nx = 0\nwhile true:\n    h = 1/2 {1/3} 3/2\n    if h == 3/2:\n        x = x + h\n    end\nend\n", ["x", "h**2"]),
     ("goal_over_constant", "k = 3\nm = 2*k\nx = 0\nwhile true:\n    x = x + k {1/2} x\nend\n", ["k", "k*x", "m*x**2", "x"]),
+    ("goal_over_constant_product", "k = 3\nx = 0\ny = 1\nwhile true:\n    x = x + k {1/2} x\n    y = 2 - y {1/3} y\nend\n", ["k*x*y", "k*x", "x*y", "k**2*x*y"]),
     ("neq_operator", "f = 0\nx = 0\nwhile true:\n    f = DiscreteUniform(0, 2)\n    if f /= 1:\n        x = x + 1\n    end\nend\n", ["x", "f*x"]),
     ("neq_guard", "f = 0\nx = 0\nwhile f /= 2:\n    f = DiscreteUniform(0, 2)\n    x = x + f\nend\n", ["x", "f"]),
     ("constant_probabilistic_init", "b = Bernoulli(1/2)\nx = 0\nwhile true:\n    if b == 1:\n        x = x + 1\n    end\nend\n", ["x", "b*x", "b"]),
